@@ -29,7 +29,7 @@ func init() {
 		Modes: []Mode{{Name: "mux", Weight: 3}, {Name: "raw", Weight: 1}},
 		Gen:   genC05, Run: runC05,
 		QuickRuns: 8000, ThoroughRuns: 240000,
-		Rule: "plan = (2..5 namespaces out of {/, /a, /ab, /a/b, /A, /chat, /chat/, /ünï, /a-b}, 1..3 managers with sockets in 1..4 of them on one connection each, optionally a namespace the server does not have, connect order and instants, a program of 10..60 operations out of {client emit, client emit with ack, server emit, server emit with ack, namespace broadcast, room broadcast, client Disconnect, server Disconnect} at drawn instants, transport, network and stall parameters; raw mode: a protocol-level peer that has joined a drawn subset sends EVENT / ACK / DISCONNECT / BINARY_EVENT packets for a namespace it has not joined, existing or not, in '', '/' and '/,' spellings) from VERIF_SEED; " +
+		Rule: "[also: a socket disconnected by the application while its manager is still opening (optionally on a latency-free network with ONE deliberate stall of 4-12 ms at a drawn yield point of client_socket.go), a sibling connecting right after that Disconnect, and a connected socket disconnected at the moment the refusal of an unknown namespace arrives] plan = (2..5 namespaces out of {/, /a, /ab, /a/b, /A, /chat, /chat/, /ünï, /a-b}, 1..3 managers with sockets in 1..4 of them on one connection each, optionally a namespace the server does not have, connect order and instants, a program of 10..60 operations out of {client emit, client emit with ack, server emit, server emit with ack, namespace broadcast, room broadcast, client Disconnect, server Disconnect} at drawn instants, transport, network and stall parameters; raw mode: a protocol-level peer that has joined a drawn subset sends EVENT / ACK / DISCONNECT / BINARY_EVENT packets for a namespace it has not joined, existing or not, in '', '/' and '/,' spellings) from VERIF_SEED; " +
 			"non-trivial = at least two namespaces shared one connection while traffic of both was in flight, or the raw packet was sent; distinct = distinct history digest among those",
 		Assumptions: []string{
 			"a client does not send into a namespace (events, or the acknowledgement of a server event) within 300 ms before the server disconnects that namespace: such a packet is addressed to a namespace the connection is no longer attached to, and the statement itself requires the connection to be closed then",
